@@ -63,7 +63,17 @@ def branch_once(prog, an, rep):
         rep.check(common.do_push_at(call, 'create') is False,
                   'C19.KWC.branch-once', f.qname + ': created locally',
                   f.where(call), 'create pushes immediately')
-        rep.check(call.args and src(call.args[0]) == 'dst', R, f.qname +
+        # the target: the variable of the loop over the destination
+        # branches the creation sits in
+        pm = parent_map(f.node)
+        lp = n.ast
+        while lp in pm and not isinstance(lp, ast.For):
+            lp = pm[lp]
+        dst = lp.target.id if isinstance(lp, ast.For) and \
+            isinstance(lp.target, ast.Name) and \
+            'dst_branches' in src(lp.iter) else None
+        rep.check(call.args and dst is not None and
+                  src(call.args[0]) == dst, R, f.qname +
                   ': the integration branch starts from its target',
                   f.where(call), 'created from %s' %
                   [src(a) for a in call.args])
@@ -71,7 +81,11 @@ def branch_once(prog, an, rep):
         bind = [v for _, v in stores_to(f, recv) if v is not None]
         named = [v for v in bind if isinstance(v, ast.Call) and
                  an.call_matches(f, v, Spec.func(BR + '.branch_factory'))]
-        rep.check(len(named) == 1 and src(named[0].args[1]) == 'name', R,
+        tmpl = string_template(substitute_locals(f, named[0].args[1])) \
+            if len(named) == 1 and len(named[0].args) > 1 else None
+        rep.check(tmpl is not None and tmpl[0] == 'w/{}/{}' and
+                  dst is not None and
+                  src(tmpl[1][0]) == dst + '.version', R,
                   f.qname + ': the branch object is branch_factory(name)',
                   f.where(n), 'bindings of %s: %s' % (
                       recv, [src(v) for v in bind]))
@@ -197,9 +211,10 @@ def pr_matching(prog, an, rep):
             (re.match(a_pat, sides[0]) and re.match(b_pat, sides[1])) or
             (re.match(a_pat, sides[1]) and re.match(b_pat, sides[0])))
     src_ok = cond_branches(an, f, lambda t: eq_sides(
-        t, r'^\w+\.src_branch$', r'^self\.name$'), True)
+        t, r'^(?!self\.).+\.src_branch$', r'^self\.name$'), True)
     dst_ok = cond_branches(an, f, lambda t: eq_sides(
-        t, r'^\w+\.dst_branch$', r'^self\.dst_branch\.name$'), True) + \
+        t, r'^(?!self\.).+\.dst_branch$', r'^self\.dst_branch\.name$'),
+        True) + \
         cond_branches(an, f, 'self.dst_branch', False)
     rep.floor('C19 returns in get_pull_request_from_list', len(rets), 1)
     for r in rets:
